@@ -11,7 +11,7 @@
    killed process (page cache), not guaranteed on power loss / OS crash since no fsync is issued;
    (b) a writer killed INSIDE add_array_to_tar (a torn member) — outside the property's quantifier;
    (c) two writers on one archive. *)
-From Coq Require Import List Bool String Ascii NArith Arith Permutation Lia.
+From Coq Require Import List Bool String Ascii NArith ZArith Arith Permutation Lia.
 From KV Require Import Eqb AL Str.
 From KV.Gen Require Import Ttar.
 From KV.Model Require Import MTar.
@@ -112,6 +112,31 @@ Proof.
   intro m. apply append_keeps_names.
 Qed.
 Print Assumptions C12_append_visible.
+
+(* 2a'. header fields play no role.  Rewriting the headers of the members (mtime, mode, owner, pax records) in any
+        way leaves the reader's index unchanged; in particular an array appended by kapture (TarInfo defaults,
+        mtime 0) supersedes a member of the same name packed from a real file, whatever that file's mtime. *)
+Theorem C12_view_ignores_headers : forall norm (f : member -> hdr) ms,
+  mview norm (map (fun m => (m_name m, f m, snd m)) ms) = mview norm ms.
+Proof. intros norm f ms. unfold mview. rewrite strip_rehdr. reflexivity. Qed.
+Print Assumptions C12_view_ignores_headers.
+
+Theorem C12_append_supersedes_packed : forall norm, idem norm -> forall ms n b,
+  lookup (norm n) (mview norm (mappend norm ms n b)) = Some b /\
+  (forall m, m <> norm n -> lookup m (mview norm (mappend norm ms n b)) = lookup m (mview norm ms)).
+Proof. intros norm I ms n b. apply mappend_visible. exact I. Qed.
+Print Assumptions C12_append_supersedes_packed.
+
+(* resolving duplicate names by modification time instead (ties: later member) breaks exactly that: *)
+Lemma C12_mtime_resolution_refuted :
+  exists norm, idem norm /\ exists ms n b,
+    lookup (norm n) (view_by_mtime norm (mappend norm ms n b)) <> Some b.
+Proof.
+  exists (fun n => n). split; [intro; reflexivity|].
+  exists [("a.jpg.kpt", {| h_mtime := 1700000000%Z; h_mode := 420%N; h_uid := 1000%N; h_pax := [] |}, "packed")],
+         "a.jpg.kpt", "appended".
+  vm_compute. discriminate.
+Qed.
 
 (* 2b. overwrites: under every name the LATEST version wins, for every history *)
 Theorem C12_latest_wins : forall norm base ops n,
